@@ -90,9 +90,11 @@ impl WriteCircuitBreaker {
                 let last_failure = self.last_failure_time.load(Ordering::Acquire);
 
                 if now.saturating_sub(last_failure) >= self.recovery_timeout.as_millis() as u64 {
-                    // Transition to half-open to test recovery
+                    // Transition to half-open to test recovery; this request is itself a
+                    // probe, so it is counted against half_open_max_calls
                     self.transition_to_half_open();
-                    true
+                    let current_calls = self.half_open_call_count.fetch_add(1, Ordering::AcqRel);
+                    current_calls < self.half_open_max_calls
                 } else {
                     false // Still in failure mode
                 }
@@ -208,17 +210,23 @@ impl WriteCircuitBreaker {
     fn transition_to_half_open(&self) {
         // Only transition if we're currently Open
         verif_point!("to_half_open:state.compare_exchange");
-        let _ = self.state.compare_exchange(
-            CircuitState::Open as u8,
-            CircuitState::HalfOpen as u8,
-            Ordering::AcqRel,
-            Ordering::Acquire,
-        );
-        // Reset half-open counters
-        verif_point!("to_half_open:half_open_call_count.store");
-        self.half_open_call_count.store(0, Ordering::Release);
-        verif_point!("to_half_open:half_open_success_count.store");
-        self.half_open_success_count.store(0, Ordering::Release);
+        let transitioned = self
+            .state
+            .compare_exchange(
+                CircuitState::Open as u8,
+                CircuitState::HalfOpen as u8,
+                Ordering::AcqRel,
+                Ordering::Acquire,
+            )
+            .is_ok();
+        // Reset half-open counters, but only if this call started the half-open episode:
+        // a concurrent loser of the exchange must not wipe the probes already counted
+        if transitioned {
+            verif_point!("to_half_open:half_open_call_count.store");
+            self.half_open_call_count.store(0, Ordering::Release);
+            verif_point!("to_half_open:half_open_success_count.store");
+            self.half_open_success_count.store(0, Ordering::Release);
+        }
     }
 
     fn transition_to_closed(&self) {
